@@ -135,7 +135,7 @@ func clip(s string) string {
 	return s
 }
 
-var kinds = []string{"none", "none", "task", "pipeline", "dep", "watcher", "dupname", "dupstage", "cycle1", "cycle2", "cycle3", "selfdep", "dep-other-pipeline", "dep-task-name", "dep-pipeline-name", "no-task-no-pipeline"}
+var kinds = []string{"none", "none", "task", "pipeline", "dep", "watcher", "dupname", "dupstage", "cycle1", "cycle2", "cycle3", "selfdep", "dep-other-pipeline", "dep-task-name", "dep-pipeline-name", "no-task-no-pipeline", "dep-blank"}
 
 func genCase(rt *rapid.T) Case {
 	c := Case{Format: rapid.SampledFrom([]string{"yaml", "yaml", "json", "toml"}).Draw(rt, "format")}
@@ -214,6 +214,9 @@ func genCase(rt *rapid.T) Case {
 			cand = "no-such-stage"
 		}
 		st.Deps = append(st.Deps, cand)
+	case "dep-blank":
+		// a depends_on entry that is empty or blank names no stage either
+		st.Deps = append(st.Deps, rapid.SampledFrom([]string{"", " ", "\t", "  "}).Draw(rt, "blank"))
 	case "no-task-no-pipeline":
 		// a stage that has a name but runs nothing
 		st.Task, st.Pipe = "", ""
